@@ -34,7 +34,18 @@ type runStats struct {
 	PerSystem   map[string][3]int  `json:"per_system"`
 }
 
-func sysFor(name string, cfg map[string]any) *SSystem {
+func sysFor(name string, cfg map[string]any) core.System {
+	if strings.HasPrefix(name, "e2e") {
+		n := 4
+		if cfg != nil && cfg["nsess"] != nil {
+			n = toInt(cfg["nsess"])
+		}
+		return NewE2E(n)
+	}
+	return sysFor2(name, cfg)
+}
+
+func sysFor2(name string, cfg map[string]any) *SSystem {
 	n := 3
 	if cfg != nil && cfg["nsess"] != nil {
 		n = toInt(cfg["nsess"])
@@ -86,11 +97,11 @@ func TestExplore(t *testing.T) {
 		name         string
 		nsess, depth int
 	}
-	tables := []tcfg{{"sync-2", 2, 7}, {"sync-3", 3, 5}}
-	maxNodes, nchains, chainLen := 20000, 12, 120
+	tables := []tcfg{{"sync-2", 2, 8}, {"sync-3", 3, 7}, {"sync-4", 4, 6}}
+	maxNodes, nchains, chainLen := 60000, 12, 120
 	if tier == "thorough" {
-		tables = []tcfg{{"sync-2", 2, 9}, {"sync-3", 3, 7}, {"sync-4", 4, 6}}
-		maxNodes, nchains, chainLen = 150000, 60, 400
+		tables = []tcfg{{"sync-2", 2, 11}, {"sync-3", 3, 9}, {"sync-4", 4, 8}}
+		maxNodes, nchains, chainLen = 400000, 60, 400
 	}
 	if v := os.Getenv("VERIF_MAXNODES"); v != "" {
 		fmt.Sscan(v, &maxNodes)
@@ -133,6 +144,22 @@ func TestExplore(t *testing.T) {
 		bundle.Systems = append(bundle.Systems, tab)
 		st.Chains++
 		st.ChainEvents += chainLen
+	}
+	// end-to-end: both syncers started, their own loops running
+	ne2e, e2eSteps := 2, 24
+	if tier == "thorough" {
+		ne2e, e2eSteps = 12, 60
+	}
+	esys := NewE2E(4)
+	for c := 0; c < ne2e; c++ {
+		tab, pr := core.Chain(esys, fmt.Sprintf("e2e#%d", c), e2eSchedule(rng, e2eSteps), false)
+		if pr != nil {
+			st.Panics = append(st.Panics, *pr)
+			continue
+		}
+		bundle.Systems = append(bundle.Systems, tab)
+		st.Chains++
+		st.ChainEvents += e2eSteps
 	}
 	if xf := os.Getenv("VERIF_EXTRA_CASES"); xf != "" {
 		b, err := os.ReadFile(xf)
